@@ -40,6 +40,22 @@ func (ul *Upstreams) UnmarshalFlag(endpoint string) error {
 	return nil
 }
 
+// UnmarshalYAML reads the upstreams from a configuration file: a list of the same URLs the --upstream option takes.
+func (ul *Upstreams) UnmarshalYAML(unmarshal func(interface{}) error) error {
+	endpoints := make([]string, 0)
+	if err := unmarshal(&endpoints); err != nil {
+		return errors.WithStack(err)
+	}
+
+	ul.Data = nil
+	for _, endpoint := range endpoints {
+		if err := ul.UnmarshalFlag(endpoint); err != nil {
+			return err
+		}
+	}
+	return nil
+}
+
 func unmarshalUpstream(endpoint string) (Upstream, error) {
 	address, err := addr.ParseAddress(endpoint)
 	err = errors.Wrapf(err, "Invalid URL: %s", endpoint)
